@@ -1,12 +1,24 @@
 (** C01 — Default rules preserve program behaviour.
 
-    LOCAL semantic equivalences of the rewrites performed by the default rules, stated about the
-    models of [Model/DefaultRules.v] (tied to the Rust rules on every run by the correspondence
-    stream "default rules: node-level model ..." of vlib/defaultrules.py) against the reference
-    interpreter [Lua/Sem.v], for every dialect, fuel, environment, varargs and store.
+    PART 1.  LOCAL semantic equivalences of the rewrites performed by the default rules, stated
+    about the models of [Model/DefaultRules.v] (tied to the Rust rules on every run by the
+    correspondence stream "default rules: node-level model ..." of vlib/defaultrules.py) against
+    the reference interpreter [Lua/Sem.v], for every dialect, fuel, environment, varargs and store.
 
-    NOT proved here: the lifting of these local equivalences to whole programs and to every
-    subset / order of the rules.  Whole-program equivalence is VALIDATED PER RUN by the
+    PART 2 (end of the file, "Lifting").  WHOLE-PROGRAM theorems about [run_chunk]: the
+    fundamental lemma (a forward same-fuel simulation of the interpreter between a program and
+    any rewriting of it generated, pre-order, from node-level refinements; closures hold
+    rewritten bodies, the stores differ in their closure records only) and its instances
+    for the traversal [apply_hooks] and for the rules remove_function_call_parens,
+    remove_empty_do, filter_after_early_return, remove_method_definition (unconditional) and
+    convert_index_to_field, remove_unused_while, remove_unused_if_branch restricted to LITERAL
+    keys / conditions ([..._literal], [..._partial]: the general rules rest on the static
+    evaluator, whose soundness needs the store invariant [env_plain] and holds up to fresh
+    garbage only); the same three rules and compute_expression (without its [and]/[or] operand
+    selection) restricted to CLOSED CONSTANT expressions ([..._const]), and with the static
+    evaluator abstracted as an oracle ([..._oracle]).  NOT proved: remove_nil_declaration as a
+    whole-program statement, the general (non-constant) cases just named, and every subset /
+    order of the rules.  Whole-program equivalence of those is VALIDATED PER RUN by the
     translation-validation stream of vlib/c01.py (vlib/rulecheck.py: original and output are
     executed in this same reference interpreter under both dialects and several oracle streams).
     remove_unused_variable and rename_variables are outside this file.
@@ -14,14 +26,16 @@
     Reading guide.  [store_extends s s1]: [s1] is [s] plus fresh allocations only (no event, no
     oracle consumption, nothing existing changed).  Where a rewrite drops a side-effect-free
     expression, the original run continues in such an [s1] while the rewritten program continues
-    in [s]: the theorems say so explicitly ("exists s1, store_extends s s1 /\ ... s1 ...");
-    closing that gap (the semantics does not observe fresh garbage) is part of the lifting.
+    in [s]: the theorems say so explicitly ("exists s1, store_extends s s1 /\ ... s1 ...").
     Preconditions [deep_safe], [ctor_pure], [env_plain] are those of the C08 theorems.
     Only statements, closed by [exact], with their assumptions printed and pinned. *)
 From Coq Require Import List.
 From DL Require Import Lib.Bytes Lib.F64 Lua.Syntax Lua.Sem Model.Evaluator Model.DefaultRules
   Lua.EvalSpec Lua.EvalSpec2 Proof.DefaultRulesSem Proof.DefaultRulesSoundBlock Proof.DefaultRulesSoundExpr
   Proof.DefaultRulesSoundCond Proof.DefaultRulesSoundFuel Proof.DefaultRulesSoundFuelInst.
+From DL Require Import Proof.LoweringFuel Proof.LiftingDefs Proof.LiftingSim Proof.LiftingVisit
+  Proof.LiftingRulesExpr Proof.LiftingRulesBlock Proof.LiftingRulesIf Proof.LiftingConst
+  Proof.LiftingRulesConst Proof.LiftingCompose Proof.LiftingExamples.
 Import ListNotations.
 Open Scope N_scope.
 
@@ -507,3 +521,381 @@ Check C01_call_parens_table_sound : forall d n rho va p m ens s vs s',
   eval d n rho va (ECall p m (ATuple [ETable ens])) s = Ok vs s' ->
   rw_call_parens (ECall p m (ATuple [ETable ens])) = ECall p m (ATable ens) /\
   eval d n rho va (ECall p m (ATable ens)) s = Ok vs s'.
+
+(** * PART 2 - Lifting: whole programs
+
+    [refines m1 m2] (Proof/LoweringFuel.v): wherever [m1] does not run out of fuel, [m2] yields
+    the very same result in the same store.  [crel_block Re Rv Rt Rs Rb b b'] (Proof/LiftingDefs.v):
+    [b'] is obtained from [b] by, at every node top-down, at most one step of the base relation
+    of that kind of node ([Re] expressions in value position, [Rv] in assignment-target position,
+    [Rt] entry lists of table constructors, [Rs] statements, [Rb] blocks) followed by the same
+    in the children of the result; type annotations are unconstrained and function bodies are
+    compared through their effective parameter names.  [hooks_ok] (Proof/LiftingVisit.v): every hook of the record relates a node to what it leaves there.
+    All theorems: SAME fuel on both sides, every outcome but [OutFuel] (values, Lua errors,
+    unsupported constructs), literal equality of the event trace and of the rendered results. *)
+
+(** the fundamental lemma at the level of chunks; the clauses for the 24 interpreter functions are [sim_all_holds] of Proof/LiftingSim.v *)
+Theorem C01_lifting_fundamental : forall (Re Rv : expr -> expr -> Prop) (Rt : list tentry -> list tentry -> Prop)
+         (Rs : stmt -> stmt -> Prop) (Rb : block -> block -> Prop) d,
+  (forall e e1, Re e e1 -> forall n rho va, refines (eval d n rho va e) (eval d n rho va e1)) ->
+  (forall e e1, Rv e e1 -> forall n rho va, refines (eval_target d n rho va e) (eval_target d n rho va e1)) ->
+  (forall ens ens1, Rt ens ens1 -> forall n rho va a pos,
+     refines (fill_table d n rho va a ens pos) (fill_table d n rho va a ens1 pos)) ->
+  (forall st st1, Rs st st1 -> forall n rho va, refines (exec_stmt d n rho va st) (exec_stmt d n rho va st1)) ->
+  (forall b b1, Rb b b1 -> forall n rho va, refines (exec_block d n rho va b) (exec_block d n rho va b1)) ->
+  (forall b b1, Rb b b1 -> forall n rho va c, refines (exec_repeat d n rho va b c) (exec_repeat d n rho va b1 c)) ->
+  forall b b', crel_block Re Rv Rt Rs Rb b b' ->
+  forall n orc out, run_chunk d n orc b = out -> out <> OutFuel -> run_chunk d n orc b' = out.
+Proof. exact crel_run_chunk. Qed.
+Print Assumptions C01_lifting_fundamental.
+Check C01_lifting_fundamental : forall (Re Rv : expr -> expr -> Prop) (Rt : list tentry -> list tentry -> Prop)
+         (Rs : stmt -> stmt -> Prop) (Rb : block -> block -> Prop) d,
+  (forall e e1, Re e e1 -> forall n rho va, refines (eval d n rho va e) (eval d n rho va e1)) ->
+  (forall e e1, Rv e e1 -> forall n rho va, refines (eval_target d n rho va e) (eval_target d n rho va e1)) ->
+  (forall ens ens1, Rt ens ens1 -> forall n rho va a pos,
+     refines (fill_table d n rho va a ens pos) (fill_table d n rho va a ens1 pos)) ->
+  (forall st st1, Rs st st1 -> forall n rho va, refines (exec_stmt d n rho va st) (exec_stmt d n rho va st1)) ->
+  (forall b b1, Rb b b1 -> forall n rho va, refines (exec_block d n rho va b) (exec_block d n rho va b1)) ->
+  (forall b b1, Rb b b1 -> forall n rho va c, refines (exec_repeat d n rho va b c) (exec_repeat d n rho va b1 c)) ->
+  forall b b', crel_block Re Rv Rt Rs Rb b b' ->
+  forall n orc out, run_chunk d n orc b = out -> out <> OutFuel -> run_chunk d n orc b' = out.
+
+(** the traversal: hooks that are node-level refinements may be applied everywhere *)
+Theorem C01_lifting_apply_hooks : forall (Re Rv : expr -> expr -> Prop) (Rt : list tentry -> list tentry -> Prop)
+         (Rs : stmt -> stmt -> Prop) (Rb : block -> block -> Prop) d,
+  (forall e e1, Re e e1 -> forall n rho va, refines (eval d n rho va e) (eval d n rho va e1)) ->
+  (forall e e1, Rv e e1 -> forall n rho va, refines (eval_target d n rho va e) (eval_target d n rho va e1)) ->
+  (forall ens ens1, Rt ens ens1 -> forall n rho va a pos,
+     refines (fill_table d n rho va a ens pos) (fill_table d n rho va a ens1 pos)) ->
+  (forall st st1, Rs st st1 -> forall n rho va, refines (exec_stmt d n rho va st) (exec_stmt d n rho va st1)) ->
+  (forall b b1, Rb b b1 -> forall n rho va, refines (exec_block d n rho va b) (exec_block d n rho va b1)) ->
+  (forall b b1, Rb b b1 -> forall n rho va c, refines (exec_repeat d n rho va b c) (exec_repeat d n rho va b1 c)) ->
+  forall H, hooks_ok Re Rv Rt Rs Rb H ->
+  forall n orc b out, run_chunk d n orc b = out -> out <> OutFuel ->
+  run_chunk d n orc (apply_hooks H b) = out.
+Proof. exact lifting_apply_hooks. Qed.
+Print Assumptions C01_lifting_apply_hooks.
+Check C01_lifting_apply_hooks : forall (Re Rv : expr -> expr -> Prop) (Rt : list tentry -> list tentry -> Prop)
+         (Rs : stmt -> stmt -> Prop) (Rb : block -> block -> Prop) d,
+  (forall e e1, Re e e1 -> forall n rho va, refines (eval d n rho va e) (eval d n rho va e1)) ->
+  (forall e e1, Rv e e1 -> forall n rho va, refines (eval_target d n rho va e) (eval_target d n rho va e1)) ->
+  (forall ens ens1, Rt ens ens1 -> forall n rho va a pos,
+     refines (fill_table d n rho va a ens pos) (fill_table d n rho va a ens1 pos)) ->
+  (forall st st1, Rs st st1 -> forall n rho va, refines (exec_stmt d n rho va st) (exec_stmt d n rho va st1)) ->
+  (forall b b1, Rb b b1 -> forall n rho va, refines (exec_block d n rho va b) (exec_block d n rho va b1)) ->
+  (forall b b1, Rb b b1 -> forall n rho va c, refines (exec_repeat d n rho va b c) (exec_repeat d n rho va b1 c)) ->
+  forall H, hooks_ok Re Rv Rt Rs Rb H ->
+  forall n orc b out, run_chunk d n orc b = out -> out <> OutFuel ->
+  run_chunk d n orc (apply_hooks H b) = out.
+
+(** ** the rules, unconditionally *)
+
+Theorem C01_lifting_remove_function_call_parens : forall d n orc b out,
+  run_chunk d n orc b = out -> out <> OutFuel ->
+  run_chunk d n orc (rule_remove_function_call_parens b) = out.
+Proof. exact lifting_remove_function_call_parens. Qed.
+Print Assumptions C01_lifting_remove_function_call_parens.
+Check C01_lifting_remove_function_call_parens : forall d n orc b out,
+  run_chunk d n orc b = out -> out <> OutFuel ->
+  run_chunk d n orc (rule_remove_function_call_parens b) = out.
+
+(** one pass, and the rule ([loop { visit; if !has_mutated { break } }]) *)
+Theorem C01_lifting_remove_empty_do_pass : forall d n orc b out,
+  run_chunk d n orc b = out -> out <> OutFuel ->
+  run_chunk d n orc (apply_hooks hooks_empty_do b) = out.
+Proof. exact lifting_remove_empty_do_pass. Qed.
+Print Assumptions C01_lifting_remove_empty_do_pass.
+Check C01_lifting_remove_empty_do_pass : forall d n orc b out,
+  run_chunk d n orc b = out -> out <> OutFuel ->
+  run_chunk d n orc (apply_hooks hooks_empty_do b) = out.
+
+Theorem C01_lifting_remove_empty_do : forall d n orc b out,
+  run_chunk d n orc b = out -> out <> OutFuel ->
+  run_chunk d n orc (rule_remove_empty_do b) = out.
+Proof. exact lifting_remove_empty_do. Qed.
+Print Assumptions C01_lifting_remove_empty_do.
+Check C01_lifting_remove_empty_do : forall d n orc b out,
+  run_chunk d n orc b = out -> out <> OutFuel ->
+  run_chunk d n orc (rule_remove_empty_do b) = out.
+
+Theorem C01_lifting_filter_after_early_return : forall d n orc b out,
+  run_chunk d n orc b = out -> out <> OutFuel ->
+  run_chunk d n orc (rule_filter_after_early_return b) = out.
+Proof. exact lifting_filter_after_early_return. Qed.
+Print Assumptions C01_lifting_filter_after_early_return.
+Check C01_lifting_filter_after_early_return : forall d n orc b out,
+  run_chunk d n orc b = out -> out <> OutFuel ->
+  run_chunk d n orc (rule_filter_after_early_return b) = out.
+
+Theorem C01_lifting_remove_method_definition : forall d n orc b out,
+  run_chunk d n orc b = out -> out <> OutFuel ->
+  run_chunk d n orc (rule_remove_method_definition b) = out.
+Proof. exact lifting_remove_method_definition. Qed.
+Print Assumptions C01_lifting_remove_method_definition.
+Check C01_lifting_remove_method_definition : forall d n orc b out,
+  run_chunk d n orc b = out -> out <> OutFuel ->
+  run_chunk d n orc (rule_remove_method_definition b) = out.
+
+(** ** the rules that consult the static evaluator, restricted to literals (PARTIAL)
+
+    [rule_X_literal] is the rule with the static evaluator answering only on literals
+    (string-literal keys; conditions [false] / [nil]; conditions [true] / [false] / [nil] /
+    number / string literal).  [..._partial]: the rule itself, on programs on which it does
+    nothing else (a decidable hypothesis; examples in Proof/LiftingExamples.v). *)
+
+Theorem C01_lifting_convert_index_to_field_literal : forall d n orc b out,
+  run_chunk d n orc b = out -> out <> OutFuel ->
+  run_chunk d n orc (rule_convert_index_to_field_literal b) = out.
+Proof. exact lifting_convert_index_to_field_literal. Qed.
+Print Assumptions C01_lifting_convert_index_to_field_literal.
+Check C01_lifting_convert_index_to_field_literal : forall d n orc b out,
+  run_chunk d n orc b = out -> out <> OutFuel ->
+  run_chunk d n orc (rule_convert_index_to_field_literal b) = out.
+
+Theorem C01_lifting_convert_index_to_field_partial : forall d n orc b out,
+  rule_convert_index_to_field b = rule_convert_index_to_field_literal b ->
+  run_chunk d n orc b = out -> out <> OutFuel ->
+  run_chunk d n orc (rule_convert_index_to_field b) = out.
+Proof. exact lifting_convert_index_to_field_partial. Qed.
+Print Assumptions C01_lifting_convert_index_to_field_partial.
+Check C01_lifting_convert_index_to_field_partial : forall d n orc b out,
+  rule_convert_index_to_field b = rule_convert_index_to_field_literal b ->
+  run_chunk d n orc b = out -> out <> OutFuel ->
+  run_chunk d n orc (rule_convert_index_to_field b) = out.
+
+Theorem C01_lifting_remove_unused_while_literal : forall d n orc b out,
+  run_chunk d n orc b = out -> out <> OutFuel ->
+  run_chunk d n orc (rule_remove_unused_while_literal b) = out.
+Proof. exact lifting_remove_unused_while_literal. Qed.
+Print Assumptions C01_lifting_remove_unused_while_literal.
+Check C01_lifting_remove_unused_while_literal : forall d n orc b out,
+  run_chunk d n orc b = out -> out <> OutFuel ->
+  run_chunk d n orc (rule_remove_unused_while_literal b) = out.
+
+Theorem C01_lifting_remove_unused_while_partial : forall d n orc b out,
+  rule_remove_unused_while b = rule_remove_unused_while_literal b ->
+  run_chunk d n orc b = out -> out <> OutFuel ->
+  run_chunk d n orc (rule_remove_unused_while b) = out.
+Proof. exact lifting_remove_unused_while_partial. Qed.
+Print Assumptions C01_lifting_remove_unused_while_partial.
+Check C01_lifting_remove_unused_while_partial : forall d n orc b out,
+  rule_remove_unused_while b = rule_remove_unused_while_literal b ->
+  run_chunk d n orc b = out -> out <> OutFuel ->
+  run_chunk d n orc (rule_remove_unused_while b) = out.
+
+(** remove_unused_if_branch with the truthiness and side-effect oracles abstracted: sound for every oracle that answers only on store-independent, store-preserving constants *)
+Theorem C01_lifting_if_oracle : forall d tr hs, tr_ok d tr hs ->
+  forall n orc b out, run_chunk d n orc b = out -> out <> OutFuel ->
+  run_chunk d n orc (apply_hooks (hooks_if_g tr hs) b) = out.
+Proof. exact lifting_if_g. Qed.
+Print Assumptions C01_lifting_if_oracle.
+Check C01_lifting_if_oracle : forall d tr hs, tr_ok d tr hs ->
+  forall n orc b out, run_chunk d n orc b = out -> out <> OutFuel ->
+  run_chunk d n orc (apply_hooks (hooks_if_g tr hs) b) = out.
+
+(** with the rule's own oracles these hooks are the rule's hooks *)
+Theorem C01_lifting_if_oracle_is_rule : (forall b, h_block hooks_if b = h_block (hooks_if_g tr_static hse) b) /\
+  (forall e, h_expr hooks_if e = h_expr (hooks_if_g tr_static hse) e).
+Proof. exact if_g_agrees. Qed.
+Print Assumptions C01_lifting_if_oracle_is_rule.
+Check C01_lifting_if_oracle_is_rule : (forall b, h_block hooks_if b = h_block (hooks_if_g tr_static hse) b) /\
+  (forall e, h_expr hooks_if e = h_expr (hooks_if_g tr_static hse) e).
+
+Theorem C01_lifting_remove_unused_if_branch_literal : forall d n orc b out,
+  run_chunk d n orc b = out -> out <> OutFuel ->
+  run_chunk d n orc (rule_remove_unused_if_branch_literal b) = out.
+Proof. exact lifting_remove_unused_if_branch_literal. Qed.
+Print Assumptions C01_lifting_remove_unused_if_branch_literal.
+Check C01_lifting_remove_unused_if_branch_literal : forall d n orc b out,
+  run_chunk d n orc b = out -> out <> OutFuel ->
+  run_chunk d n orc (rule_remove_unused_if_branch_literal b) = out.
+
+Theorem C01_lifting_remove_unused_if_branch_partial : forall d n orc b out,
+  rule_remove_unused_if_branch b = rule_remove_unused_if_branch_literal b ->
+  run_chunk d n orc b = out -> out <> OutFuel ->
+  run_chunk d n orc (rule_remove_unused_if_branch b) = out.
+Proof. exact lifting_remove_unused_if_branch_partial. Qed.
+Print Assumptions C01_lifting_remove_unused_if_branch_partial.
+Check C01_lifting_remove_unused_if_branch_partial : forall d n orc b out,
+  rule_remove_unused_if_branch b = rule_remove_unused_if_branch_literal b ->
+  run_chunk d n orc b = out -> out <> OutFuel ->
+  run_chunk d n orc (rule_remove_unused_if_branch b) = out.
+
+(** ** the same rules and compute_expression, restricted to closed constant expressions (PARTIAL)
+
+    [cval] (Proof/LiftingConst.v) evaluates expressions built from literals with [not], unary
+    minus and arithmetic (not [%]) on numbers, comparisons on numbers and on strings, [..] on
+    strings, [==] / [~=], [and] / [or] and parentheses; in EVERY store such an expression yields
+    that value and leaves the store alone.  [*_oracle]: the rule with the static evaluator's
+    answers as a parameter, sound for every oracle that only answers on such constants;
+    [*_oracle_is_rule]: with its own oracle it is the rule (hooks equal pointwise). *)
+
+Theorem C01_lifting_cval_sound : forall d rho va e v, cval e = Some v ->
+  forall n, refines (eval d n rho va e) (ret [v]).
+Proof. exact cval_sound. Qed.
+Print Assumptions C01_lifting_cval_sound.
+Check C01_lifting_cval_sound : forall d rho va e v, cval e = Some v ->
+  forall n, refines (eval d n rho va e) (ret [v]).
+
+Theorem C01_lifting_index_oracle : forall d ck, ck_ok d ck ->
+  forall n orc b out, run_chunk d n orc b = out -> out <> OutFuel ->
+  run_chunk d n orc (apply_hooks (hooks_index_to_field_g ck) b) = out.
+Proof. exact lifting_index_to_field_g. Qed.
+Print Assumptions C01_lifting_index_oracle.
+Check C01_lifting_index_oracle : forall d ck, ck_ok d ck ->
+  forall n orc b out, run_chunk d n orc b = out -> out <> OutFuel ->
+  run_chunk d n orc (apply_hooks (hooks_index_to_field_g ck) b) = out.
+
+Theorem C01_lifting_index_oracle_is_rule : (forall e, h_expr hooks_index_to_field e = h_expr (hooks_index_to_field_g convert_to_field) e) /\
+  (forall e, h_prefix hooks_index_to_field e = h_prefix (hooks_index_to_field_g convert_to_field) e) /\
+  (forall e, h_var hooks_index_to_field e = h_var (hooks_index_to_field_g convert_to_field) e) /\
+  (forall t, h_table hooks_index_to_field t = h_table (hooks_index_to_field_g convert_to_field) t).
+Proof. exact index_to_field_g_agrees. Qed.
+Print Assumptions C01_lifting_index_oracle_is_rule.
+Check C01_lifting_index_oracle_is_rule : (forall e, h_expr hooks_index_to_field e = h_expr (hooks_index_to_field_g convert_to_field) e) /\
+  (forall e, h_prefix hooks_index_to_field e = h_prefix (hooks_index_to_field_g convert_to_field) e) /\
+  (forall e, h_var hooks_index_to_field e = h_var (hooks_index_to_field_g convert_to_field) e) /\
+  (forall t, h_table hooks_index_to_field t = h_table (hooks_index_to_field_g convert_to_field) t).
+
+Theorem C01_lifting_while_oracle : forall d keepc, keepc_ok d keepc ->
+  forall n orc b out, run_chunk d n orc b = out -> out <> OutFuel ->
+  run_chunk d n orc (apply_hooks (hooks_while_g keepc) b) = out.
+Proof. exact lifting_while_g. Qed.
+Print Assumptions C01_lifting_while_oracle.
+Check C01_lifting_while_oracle : forall d keepc, keepc_ok d keepc ->
+  forall n orc b out, run_chunk d n orc b = out -> out <> OutFuel ->
+  run_chunk d n orc (apply_hooks (hooks_while_g keepc) b) = out.
+
+Theorem C01_lifting_while_oracle_is_rule : forall b, h_block hooks_while b = h_block (hooks_while_g keepc_static) b.
+Proof. exact while_g_agrees. Qed.
+Print Assumptions C01_lifting_while_oracle_is_rule.
+Check C01_lifting_while_oracle_is_rule : forall b, h_block hooks_while b = h_block (hooks_while_g keepc_static) b.
+
+(** compute_expression without the [and]/[or] operand selection (truthiness oracle [fun _ => None]); the static value is announced only for nodes that evaluate to its literal at the same fuel *)
+Theorem C01_lifting_compute_oracle : forall d ev hs, ev_ok d ev hs ->
+  forall n orc b out, run_chunk d n orc b = out -> out <> OutFuel ->
+  run_chunk d n orc (apply_hooks (hooks_compute_g ev (fun _ => None) hs) b) = out.
+Proof. exact lifting_compute_g. Qed.
+Print Assumptions C01_lifting_compute_oracle.
+Check C01_lifting_compute_oracle : forall d ev hs, ev_ok d ev hs ->
+  forall n orc b out, run_chunk d n orc b = out -> out <> OutFuel ->
+  run_chunk d n orc (apply_hooks (hooks_compute_g ev (fun _ => None) hs) b) = out.
+
+Theorem C01_lifting_compute_oracle_is_rule : forall e, h_expr hooks_compute e = h_expr (hooks_compute_g evaluate tr_static hse) e.
+Proof. exact compute_g_agrees. Qed.
+Print Assumptions C01_lifting_compute_oracle_is_rule.
+Check C01_lifting_compute_oracle_is_rule : forall e, h_expr hooks_compute e = h_expr (hooks_compute_g evaluate tr_static hse) e.
+
+Theorem C01_lifting_convert_index_to_field_const : forall d n orc b out,
+  run_chunk d n orc b = out -> out <> OutFuel ->
+  run_chunk d n orc (rule_convert_index_to_field_const b) = out.
+Proof. exact lifting_convert_index_to_field_const. Qed.
+Print Assumptions C01_lifting_convert_index_to_field_const.
+Check C01_lifting_convert_index_to_field_const : forall d n orc b out,
+  run_chunk d n orc b = out -> out <> OutFuel ->
+  run_chunk d n orc (rule_convert_index_to_field_const b) = out.
+
+Theorem C01_lifting_convert_index_to_field_const_partial : forall d n orc b out,
+  rule_convert_index_to_field b = rule_convert_index_to_field_const b ->
+  run_chunk d n orc b = out -> out <> OutFuel ->
+  run_chunk d n orc (rule_convert_index_to_field b) = out.
+Proof. exact lifting_convert_index_to_field_const_partial. Qed.
+Print Assumptions C01_lifting_convert_index_to_field_const_partial.
+Check C01_lifting_convert_index_to_field_const_partial : forall d n orc b out,
+  rule_convert_index_to_field b = rule_convert_index_to_field_const b ->
+  run_chunk d n orc b = out -> out <> OutFuel ->
+  run_chunk d n orc (rule_convert_index_to_field b) = out.
+
+Theorem C01_lifting_remove_unused_while_const : forall d n orc b out,
+  run_chunk d n orc b = out -> out <> OutFuel ->
+  run_chunk d n orc (rule_remove_unused_while_const b) = out.
+Proof. exact lifting_remove_unused_while_const. Qed.
+Print Assumptions C01_lifting_remove_unused_while_const.
+Check C01_lifting_remove_unused_while_const : forall d n orc b out,
+  run_chunk d n orc b = out -> out <> OutFuel ->
+  run_chunk d n orc (rule_remove_unused_while_const b) = out.
+
+Theorem C01_lifting_remove_unused_while_const_partial : forall d n orc b out,
+  rule_remove_unused_while b = rule_remove_unused_while_const b ->
+  run_chunk d n orc b = out -> out <> OutFuel ->
+  run_chunk d n orc (rule_remove_unused_while b) = out.
+Proof. exact lifting_remove_unused_while_const_partial. Qed.
+Print Assumptions C01_lifting_remove_unused_while_const_partial.
+Check C01_lifting_remove_unused_while_const_partial : forall d n orc b out,
+  rule_remove_unused_while b = rule_remove_unused_while_const b ->
+  run_chunk d n orc b = out -> out <> OutFuel ->
+  run_chunk d n orc (rule_remove_unused_while b) = out.
+
+Theorem C01_lifting_remove_unused_if_branch_const : forall d n orc b out,
+  run_chunk d n orc b = out -> out <> OutFuel ->
+  run_chunk d n orc (rule_remove_unused_if_branch_const b) = out.
+Proof. exact lifting_remove_unused_if_branch_const. Qed.
+Print Assumptions C01_lifting_remove_unused_if_branch_const.
+Check C01_lifting_remove_unused_if_branch_const : forall d n orc b out,
+  run_chunk d n orc b = out -> out <> OutFuel ->
+  run_chunk d n orc (rule_remove_unused_if_branch_const b) = out.
+
+Theorem C01_lifting_remove_unused_if_branch_const_partial : forall d n orc b out,
+  rule_remove_unused_if_branch b = rule_remove_unused_if_branch_const b ->
+  run_chunk d n orc b = out -> out <> OutFuel ->
+  run_chunk d n orc (rule_remove_unused_if_branch b) = out.
+Proof. exact lifting_remove_unused_if_branch_const_partial. Qed.
+Print Assumptions C01_lifting_remove_unused_if_branch_const_partial.
+Check C01_lifting_remove_unused_if_branch_const_partial : forall d n orc b out,
+  rule_remove_unused_if_branch b = rule_remove_unused_if_branch_const b ->
+  run_chunk d n orc b = out -> out <> OutFuel ->
+  run_chunk d n orc (rule_remove_unused_if_branch b) = out.
+
+Theorem C01_lifting_compute_expression_const : forall d n orc b out,
+  run_chunk d n orc b = out -> out <> OutFuel ->
+  run_chunk d n orc (rule_compute_expression_const b) = out.
+Proof. exact lifting_compute_expression_const. Qed.
+Print Assumptions C01_lifting_compute_expression_const.
+Check C01_lifting_compute_expression_const : forall d n orc b out,
+  run_chunk d n orc b = out -> out <> OutFuel ->
+  run_chunk d n orc (rule_compute_expression_const b) = out.
+
+Theorem C01_lifting_compute_expression_const_partial : forall d n orc b out,
+  rule_compute_expression b = rule_compute_expression_const b ->
+  run_chunk d n orc b = out -> out <> OutFuel ->
+  run_chunk d n orc (rule_compute_expression b) = out.
+Proof. exact lifting_compute_expression_const_partial. Qed.
+Print Assumptions C01_lifting_compute_expression_const_partial.
+Check C01_lifting_compute_expression_const_partial : forall d n orc b out,
+  rule_compute_expression b = rule_compute_expression_const b ->
+  run_chunk d n orc b = out -> out <> OutFuel ->
+  run_chunk d n orc (rule_compute_expression b) = out.
+
+(** ** any number, subset and order of the covered rules ([apply_rules]: one after the other);
+    [covered_rules]: remove_function_call_parens, remove_empty_do, filter_after_early_return,
+    remove_method_definition and the [..._const] restrictions of convert_index_to_field,
+    remove_unused_while, remove_unused_if_branch, compute_expression *)
+
+Theorem C01_lifting_rules_compose : forall rs, Forall rule_sound rs -> rule_sound (apply_rules rs).
+Proof. exact rules_sound_compose. Qed.
+Print Assumptions C01_lifting_rules_compose.
+Check C01_lifting_rules_compose : forall rs, Forall rule_sound rs -> rule_sound (apply_rules rs).
+
+Theorem C01_lifting_covered_rules : forall rs, (forall r, In r rs -> In r covered_rules) ->
+  forall d n orc b out, run_chunk d n orc b = out -> out <> OutFuel ->
+  run_chunk d n orc (apply_rules rs b) = out.
+Proof. exact lifting_covered_rules. Qed.
+Print Assumptions C01_lifting_covered_rules.
+Check C01_lifting_covered_rules : forall rs, (forall r, In r rs -> In r covered_rules) ->
+  forall d n orc b out, run_chunk d n orc b = out -> out <> OutFuel ->
+  run_chunk d n orc (apply_rules rs b) = out.
+
+(** REFUTED for compute_expression as it is: a same-fuel statement.  [return 5 - 1e309] ([ex_neg_inf]) completes with 6 units of fuel; the folded [return (-1)/0] needs 8 *)
+Theorem C01_lifting_compute_same_fuel_refuted : rule_compute_expression ex_neg_inf =
+    Block [] (Some (LReturn [EBinary BDiv (EUnary UMinus (xnum (BinNums.Zpos BinNums.xH))) (xnum BinNums.Z0)])) /\
+  run_chunk L51 6 [] ex_neg_inf = OutOk [] [RNum (to_bits (SpecFloat.S754_infinity true))] /\
+  run_chunk L51 6 [] (rule_compute_expression ex_neg_inf) = OutFuel /\
+  run_chunk L51 8 [] (rule_compute_expression ex_neg_inf) = OutOk [] [RNum (to_bits (SpecFloat.S754_infinity true))].
+Proof. exact compute_same_fuel_refuted. Qed.
+Print Assumptions C01_lifting_compute_same_fuel_refuted.
+Check C01_lifting_compute_same_fuel_refuted : rule_compute_expression ex_neg_inf =
+    Block [] (Some (LReturn [EBinary BDiv (EUnary UMinus (xnum (BinNums.Zpos BinNums.xH))) (xnum BinNums.Z0)])) /\
+  run_chunk L51 6 [] ex_neg_inf = OutOk [] [RNum (to_bits (SpecFloat.S754_infinity true))] /\
+  run_chunk L51 6 [] (rule_compute_expression ex_neg_inf) = OutFuel /\
+  run_chunk L51 8 [] (rule_compute_expression ex_neg_inf) = OutOk [] [RNum (to_bits (SpecFloat.S754_infinity true))].
+
